@@ -39,8 +39,20 @@ IDX_TYPES = ['int8', 'uint8', 'int16', 'uint16', 'int32', 'uint32', 'int64', 'ui
 
 class Check(PropertyCheck):
     id = 'C05'
-    lean_targets = ['RegionsVerif.Props.C05']
-    namespaces = ['RegionsVerif.Props.C05']
+    lean_targets = ['RegionsVerif.Props.C05', 'RegionsVerif.Bridge.InlineGlueC05']
+    namespaces = ['RegionsVerif.Props.C05', 'RegionsVerif.Bridge.InlineGlueC05']
+
+    def _inline_glue(self):
+        # tie T: normal forms of the glue methods (tools/inlineglue.py, group C05)
+        import importlib.util, os
+        from .common import VERIF
+        spec = importlib.util.spec_from_file_location('inlineglue', os.path.join(VERIF, 'tools', 'inlineglue.py'))
+        mod = importlib.util.module_from_spec(spec)
+        spec.loader.exec_module(mod)
+        return mod.main(['C05'])
+
+    def translate(self):
+        return self._inline_glue()
     rule = ('box positions relative to the image: exhaustive corners in a window around images up to N x N '
             '(inside, straddling every edge/corner, outside on each side, negative, larger than the image, 1-pixel, empty) '
             'x dyadic weight patterns incl. zeros x dtype int/float/Quantity x fill {0, finite, nan, +-inf} x copy flag '
